@@ -47,10 +47,18 @@ structure Variant where
   perProxySlot : Bool
   /-- C09-05: proxies created from explicit interfaces are registered too. -/
   registerExplicit : Bool
+  /-- C09-06: every user disconnect callback runs inside try/except (logged); a raising callback no longer
+  aborts `connectionLost`. -/
+  guardCallbacks : Bool
+  /-- C09-07: a Hello reply without a bus name is a failed registration (the connect Deferred fails) instead of
+  a "connection" whose later loss is ignored. -/
+  helloNeedsName : Bool
 deriving DecidableEq, Repr
 
-def Variant.repaired : Variant := ⟨true, true, true, true, true⟩
-def Variant.original : Variant := ⟨false, false, false, false, false⟩
+def Variant.repaired : Variant := ⟨true, true, true, true, true, true, true⟩
+def Variant.original : Variant := ⟨false, false, false, false, false, false, false⟩
+/-- /repo after C09-01..05 only (the tree the reviewer probed). -/
+def Variant.fiveFixes : Variant := ⟨true, true, true, true, true, false, false⟩
 
 /-- What a user callback / errback does when it runs during `connectionLost`. -/
 inductive Reaction
@@ -58,6 +66,7 @@ inductive Reaction
   | newCall            -- conn.callRemote(...) (no timeout): a retry
   | unregisterSelf     -- cancelNotifyOnDisconnect(itself)   (no-op for a call's errback)
   | registerAnother    -- notifyOnDisconnect(<a new callback that does nothing>)
+  | raises             -- the callback raises an exception (for a call's errback the Deferred swallows it)
   | newProxy           -- getRemoteObject(..., <explicit interfaces>) on the same connection (the proxy is made and
                        -- registered synchronously) and notifyOnDisconnect(<a callback that does nothing>) on it
 deriving DecidableEq, Repr
@@ -106,6 +115,7 @@ inductive ConnectResult
   | noAddress           -- ConnectError: no valid bus addresses found
   | unreachable         -- ConnectError: failed to connect to any bus address
   | helloError          -- the error reply to Hello
+  | helloNoName         -- a Hello reply that carries no bus name (C09-07)
   | lostEarly           -- the reason the transport closed with before the connection was ready
 deriving DecidableEq, Repr
 
@@ -143,6 +153,8 @@ structure St where
   nextCb : Nat
   nextProxy : Nat
   log : List Fx
+  /-- An exception is propagating out of `connectionLost` (only ever set when callbacks are not guarded). -/
+  aborted : Bool
 deriving DecidableEq, Repr
 
 def St.emit (s : St) (f : Fx) : St := { s with log := s.log ++ [f] }
@@ -167,7 +179,7 @@ def tryNext (s : St) : St :=
 def St.empty : St :=
   { phase := .connecting, remaining := [], current := none, fired := [], busName := false,
     dcCallbacks := [], pending := [], timers := [], proxies := [], registry := [],
-    nextSerial := 0, nextCb := 0, nextProxy := 0, log := [] }
+    nextSerial := 0, nextCb := 0, nextProxy := 0, log := [], aborted := false }
 
 /-- `client.connect(reactor, addr)` given the parsed endpoint list. -/
 def connect (eps : List Endpoint) : St :=
@@ -233,6 +245,10 @@ def react (v : Variant) (who : Who) (r : Reaction) (s : St) : St :=
       { s with proxies := modifyProxy p (fun q => { q with cbs := q.cbs ++ [⟨s.nextCb, .nothing⟩] }) s.proxies,
                nextCb := s.nextCb + 1 }
     | _ => { s with dcCallbacks := s.dcCallbacks ++ [⟨s.nextCb, .nothing⟩], nextCb := s.nextCb + 1 }
+  | .raises =>
+    match who with
+    | .errback _ => s            -- Deferred.errback catches what its callbacks raise
+    | _ => if v.guardCallbacks then s else { s with aborted := true }
   | .newProxy =>
     -- a new proxy from explicit interfaces, with one callback; whoever is running
     { makeProxyCbs v 0 true [⟨s.nextCb, .nothing⟩] s with nextCb := s.nextCb + 1 }
@@ -245,7 +261,9 @@ def runConnCb (v : Variant) (c : Cb) (s : St) : St := react v (.connCb c) c.reac
 /-- `for cb in list(self._dcCallbacks): cb(self, reason)` over the copy `cbs`. -/
 def runConnCbs (v : Variant) : List Cb → St → St
   | [], s => s
-  | c :: t, s => runConnCbs v t (runConnCb v c s)
+  | c :: t, s =>
+    let s' := runConnCb v c s
+    if !v.guardCallbacks && s'.aborted then s' else runConnCbs v t s'
 
 /-- Pre-repair: `for cb in self._dcCallbacks:` walks the live list by index. -/
 def runConnCbsLive (v : Variant) : Nat → Nat → St → St
@@ -253,7 +271,9 @@ def runConnCbsLive (v : Variant) : Nat → Nat → St → St
   | fuel + 1, i, s =>
     match s.dcCallbacks[i]? with
     | none => s
-    | some c => runConnCbsLive v fuel (i + 1) (runConnCb v c s)
+    | some c =>
+      let s' := runConnCb v c s
+      if !v.guardCallbacks && s'.aborted then s' else runConnCbsLive v fuel (i + 1) s'
 
 def errKindOf : CallKind → ErrKind
   | .introspect _ => .introspectionFailed
@@ -286,14 +306,18 @@ def runProxyCb (v : Variant) (p : Nat) (c : Cb) (s : St) : St := react v (.proxy
 
 def runProxyCbs (v : Variant) (p : Nat) : List Cb → St → St
   | [], s => s
-  | c :: t, s => runProxyCbs v p t (runProxyCb v p c s)
+  | c :: t, s =>
+    let s' := runProxyCb v p c s
+    if !v.guardCallbacks && s'.aborted then s' else runProxyCbs v p t s'
 
 def runProxyCbsLive (v : Variant) (p : Nat) : Nat → Nat → St → St
   | 0, _, s => s
   | fuel + 1, i, s =>
     match (findProxy p s.proxies).bind (fun q => q.cbs[i]?) with
     | none => s
-    | some c => runProxyCbsLive v p fuel (i + 1) (runProxyCb v p c s)
+    | some c =>
+      let s' := runProxyCb v p c s
+      if !v.guardCallbacks && s'.aborted then s' else runProxyCbsLive v p fuel (i + 1) s'
 
 /-- `for wref in self._weakProxies.valuerefs(): p = wref(); if p is not None: p.connectionLost(reason)`
 over the copy `slots` of the registry. -/
@@ -305,7 +329,7 @@ def runProxies (v : Variant) : List (Nat × Nat) → St → St
       if q.alive then
         let s := if v.snapshotCallbacks then runProxyCbs v p q.cbs s
                  else runProxyCbsLive v p (2 * q.cbs.length + 1) 0 s
-        runProxies v t s
+        if !v.guardCallbacks && s.aborted then s else runProxies v t s
       else runProxies v t s
     | none => runProxies v t s
 
@@ -319,16 +343,19 @@ def connectionLost (v : Variant) (s : St) : St :=
     let s := { s with phase := .lost }
     let s := if v.snapshotCallbacks then runConnCbs v s.dcCallbacks s
              else runConnCbsLive v (2 * s.dcCallbacks.length + 1) 0 s
-    if v.snapshotPending then
+    if !v.guardCallbacks && s.aborted then s.emit .crashed   -- a callback raised: nothing after it runs
+    else if v.snapshotPending then
       -- pending, self._pendingCalls = self._pendingCalls, {}
       let s := failCalls v s.pending { s with pending := [] }
-      runProxies v s.registry s
+      let s := runProxies v s.registry s
+      if !v.guardCallbacks && s.aborted then s.emit .crashed else s
     else
       match failCallsLive v s.pending s with
       | (s', true) => s'.emit .crashed      -- RuntimeError: nothing after the loop runs
       | (s', false) =>
         let s := { s' with pending := [] }  -- self._pendingCalls = {}
-        runProxies v s.registry s
+        let s := runProxies v s.registry s
+        if !v.guardCallbacks && s.aborted then s.emit .crashed else s
 
 /-! ## The remaining operations -/
 
@@ -370,7 +397,7 @@ inductive Ev
   -- environment: the reactor and the peer
   | attemptFails (why : FailKind) | attemptConnects
   | authProgress | authOk | authFailed
-  | helloReply | helloError
+  | helloReply (named : Bool) | helloError
   | close
   | reply (serial : Nat) (ok : Bool)
   | expire (serial : Nat)
@@ -387,7 +414,7 @@ deriving DecidableEq, Repr
 
 def Ev.isEnv : Ev → Bool
   | .attemptFails _ | .attemptConnects | .authProgress | .authOk | .authFailed
-  | .helloReply | .helloError | .close | .reply _ _ | .expire _ => true
+  | .helloReply _ | .helloError | .close | .reply _ _ | .expire _ => true
   | _ => false
 
 /-- One event.  An event that cannot happen in the current state (see the header) changes nothing. -/
@@ -407,12 +434,19 @@ def step (v : Variant) (s : St) : Ev → St
   | .authFailed =>
     -- DBusAuthenticationFailed -> transport.loseConnection() -> (reactor) connectionLost
     if s.phase = .authenticating then connectionLost v s else s
-  | .helloReply =>
+  | .helloReply named =>
     if s.phase = .helloSent then
       match helloCall s.pending with
       | some c =>
-        -- methodReturnReceived; _cbGotHello: busName set, factory._ok(self)
-        fire .connection { s with pending := removeCall c.serial s.pending, busName := true, phase := .ready }
+        -- methodReturnReceived; _cbCvtReply gives None for a reply without a body; _cbGotHello
+        if named then
+          fire .connection { s with pending := removeCall c.serial s.pending, busName := true, phase := .ready }
+        else if v.helloNeedsName then
+          -- C09-07: not a registration: the attempt fails (the transport stays open, as after a Hello error)
+          fire .helloNoName { s with pending := removeCall c.serial s.pending, phase := .helloFailed }
+        else
+          -- busName stays None, yet factory._ok(self): the user holds a "connection" whose loss will be ignored
+          fire .connection { s with pending := removeCall c.serial s.pending, phase := .ready }
       | none => s
     else s
   | .helloError =>
@@ -482,11 +516,20 @@ def Phase.concluded : Phase → Bool
 /-- Event `e`, arriving in state `s`, ends the connection attempt: a Hello reply or error, a transport
 close in any phase, an authentication failure, or the failure of the last address of the list. -/
 def concludes (s : St) : Ev → Bool
-  | .helloReply | .helloError => s.phase = .helloSent
+  | .helloReply _ | .helloError => s.phase = .helloSent
   | .close => s.transportOpen
   | .authFailed => s.phase = .authenticating
   | .attemptFails _ => s.phase = .connecting && s.remaining.isEmpty
   | _ => false
+
+/-- What the connect Deferred fires with when `e` is the event that concludes the attempt: the connection
+exactly for a Hello reply carrying a bus name, a failure of the matching kind otherwise. -/
+def resultOf : Ev → ConnectResult
+  | .helloReply true => .connection
+  | .helloReply false => .helloNoName
+  | .helloError => .helloError
+  | .attemptFails _ => .unreachable
+  | _ => .lostEarly          -- transport close, authentication failure
 
 /-- The connection attempts made so far, in order. -/
 def attempts (s : St) : List Endpoint :=
